@@ -69,6 +69,108 @@ class Tools:
         return res, info
 
 
+    # --- classification probes
+    def classify(self, decls):
+        """per decl dict: gcc_arg, gcc_ret (spy letters), c2m_ret (letters), c2m_args (list of 'blkK:size'),
+        mc_ret, mc_args (c2mir model), ms_ret, ms_args (SysV model)"""
+        idx = list(enumerate(decls))
+        spy = self.path('spy.c')
+        open(spy, 'w').write(G.spy_tu(idx))
+        exe = spy[:-2] + '.exe'
+        rc, out, err = vlib.sh(['gcc', '-w', '-O0', '-std=gnu11', '-I' + os.path.join(vlib.VERIF, 'harness'), spy,
+                                os.path.join(vlib.VERIF, 'harness', 'c08_spy.S'), '-o', exe], timeout=600)
+        if rc != 0:
+            raise vlib.BuildError('gcc failed on the spy TU: ' + err[-800:])
+        rc, out, err = vlib.sh([exe], timeout=300)
+        g = {}
+        for l in out.split('\n'):
+            w = l.split()
+            if len(w) >= 3:
+                g[w[0] + w[1]] = w[2]
+        sig = self.path('sig.c')
+        open(sig, 'w').write(G.sig_tu(idx))
+        mir = sig[:-2] + '.mir'
+        rc2, o2, e2 = vlib.sh([self.c2m, sig, '-S', '-o', mir], timeout=300, cwd=self.dir)
+        sigs = {}
+        if os.path.exists(mir):
+            for m in re.finditer(r'^(ret\d+|arg\d+_\d+):\s+func[ \t]*(.*)$', open(mir, errors='replace').read(), re.M):
+                sigs[m.group(1)] = [x.strip() for x in m.group(2).split(',')] if m.group(2).strip() else []
+        pres = ' '.join('%d,%d' % p for p in G.PRE_ARGS)
+        rcm, om, em = vlib.run_lines(self.model, ['K %s | %s' % (pres, G.ty_text(t)) for t in decls])
+        if rcm != 0 or len(om) != len(decls):
+            raise vlib.BuildError('model driver failed: rc=%d %s' % (rcm, em[-500:]))
+        res = []
+        for i, t in enumerate(decls):
+            r = dict(gcc_arg=g.get('A%d' % i), gcc_ret=g.get('R%d' % i), c2m_err=e2[-300:])
+            ps = sigs.get('ret%d' % i)
+            if ps is None:
+                r['c2m_ret'] = None
+            elif any(x.startswith('rblk:') for x in ps):
+                r['c2m_ret'] = 'M'
+            else:
+                r['c2m_ret'] = ''.join({'f': 'S', 'd': 'S', 'ld': 'X'}.get(x, 'I' if re.match(r'[iu](8|16|32|64)$', x) else '?')
+                                       for x in ps if ':' not in x)
+            args = []
+            for j in range(len(G.PRE_ARGS)):
+                ps = sigs.get('arg%d_%d' % (i, j))
+                mm = re.match(r'(blk\d:\d+)\(', ps[-1]) if ps else None
+                args.append(mm.group(1) if mm else None)
+            r['c2m_args'] = args
+            mc, ms = om[i].split('|')
+            kv = dict(x.split('=') for x in mc.split()[1:])
+            r['mc_ret'], r['mc_args'] = kv['ret'], kv['args'].split(';')
+            kv = dict(x.split('=') for x in ms.split())
+            r['ms_ret'], r['ms_args'] = kv['ret'], kv['args'].split(';')
+            res.append(r)
+        return res
+
+
+def blk_letters(b):
+    """'blk3:16' -> 'IS' : the registers a MIR block type travels in"""
+    if b is None:
+        return None
+    k, size = int(b[3]), int(b.split(':')[1])
+    nq = (size + 7) // 8
+    return {0: 'M', 1: 'I' * nq, 2: 'S' * nq, 3: 'IS', 4: 'SI'}[k]
+
+
+def has_union_unnamed_bf(t):
+    """gcc (unlike the psABI text and clang) classifies the members of a union by their declared type even
+    when they are bit-fields: an unnamed/zero-width bit-field in a union becomes an INTEGER of its type
+    (`union{long:0; float f;}` travels in %rdi; clang and c2m: %xmm0) or, misaligned, forces MEMORY
+    (`struct{int a:1; union{long:9; char c;} u;}`).  Such declarations are not compared with gcc."""
+    for x in G.walk_types(t):
+        if x[0] == 'u' and any(m[0] == 'g' for m in x[1]):
+            return True
+    return False
+
+
+def ret_same(gcc, other):
+    """gcc's observed return letters vs a prediction; a lower-case letter (padding-only eightbyte, nothing
+    observable in the return registers) matches anything"""
+    return len(gcc) == len(other) and all(a == b or a.islower() for a, b in zip(gcc, other))
+
+
+def kverdict(t, r):
+    if r['gcc_arg'] is None or r['gcc_ret'] is None or '?' in r['gcc_arg'] + r['gcc_ret']:
+        return 'spy-unreadable'
+    if r['c2m_ret'] is None or None in r['c2m_args']:
+        return 'c2m-fails'
+    if 'n' in r['ms_args'][0]:
+        return 'padding-eightbyte'      # an eightbyte of nothing but padding: known c2m deviation
+    if has_union_unnamed_bf(t):
+        return 'gcc-union-unnamed-bf'   # gcc deviates from the psABI text; not compared
+    if blk_letters(r['c2m_args'][0]) != r['gcc_arg'].upper() or not ret_same(r['gcc_ret'], r['c2m_ret']):
+        return 'abi-mismatch'
+    if r['c2m_ret'] != r['mc_ret'] or r['c2m_args'] != r['mc_args']:
+        return 'model-c2m'
+    if r['gcc_arg'].upper() != r['ms_args'][0].upper() or not ret_same(r['gcc_ret'], r['ms_ret']):
+        return 'model-sysv'
+    if [blk_letters(b) for b in r['mc_args']] != r['ms_args'] or r['mc_ret'] != r['ms_ret']:
+        return 'models-differ'          # the two Coq models disagree (register exhaustion cases)
+    return 'ok'
+
+
 def verdict(r):
     """classify one declaration's four observations"""
     if r['gcc'] is None:
@@ -162,6 +264,73 @@ def layout_part(chk, tools, decls, label):
     return bad
 
 
+def gen_small(chk, n, salt):
+    rng = chk.rng(salt)
+    out = []
+    while len(out) < n:
+        t = G.small_decl(rng) if rng.random() < 0.85 else G.Gen(rng, flex=False, max_depth=2).decl()
+        if G.passable(t):
+            out.append(t)
+    return out
+
+
+def classify_part(chk, tools, decls, label):
+    res = tools.classify(decls)
+    bad = {}
+    for t, r in zip(decls, res):
+        v = kverdict(t, r)
+        chk.count('K ' + G.ty_text(t), nontrivial=G.size_of(t) >= 3)
+        chk.dist('classify_verdicts', v)
+        chk.dist('arg_class(gcc)', (r['gcc_arg'] or '?').upper())
+        chk.dist('ret_class(gcc)', (r['gcc_ret'] or '?').upper())
+        if v not in ('ok', 'padding-eightbyte', 'gcc-union-unnamed-bf'):
+            bad.setdefault(v, []).append((t, r))
+    chk.log('%s: %d declarations, verdicts %s' % (label, len(decls), {k: len(v) for k, v in bad.items()} or 'all ok'))
+    seen = set()
+    real = 0
+    for v in ('abi-mismatch', 'c2m-fails', 'spy-unreadable', 'model-c2m', 'model-sysv', 'models-differ'):
+        for t, r in bad.get(v, [])[:5]:
+            def fails(c, v=v):
+                if not G.passable(c):
+                    return False
+                return kverdict(c, tools.classify([c])[0]) == v
+            small = G.shrink(t, fails, max_steps=150)
+            txt = G.ty_text(small)
+            if txt in seen:
+                continue
+            seen.add(txt)
+            rr = tools.classify([small])[0]
+            obj = dict(kind='classify', decl=txt, original=G.ty_text(t), **rr)
+            if v == 'abi-mismatch':
+                real += 1
+                chk.finding('classify:' + txt, obj, 'c2m and gcc pass/return this aggregate differently: %s  c2m[arg %s ret %s] gcc[arg %s ret %s]' % (
+                    txt, blk_letters(rr['c2m_args'][0]), rr['c2m_ret'], rr['gcc_arg'], rr['gcc_ret']))
+            elif v == 'c2m-fails':
+                real += 1
+                chk.finding('c2m-fails:' + txt, obj, 'c2m fails on functions passing %s (%s)' % (txt, rr['c2m_err'][-200:]))
+            elif v == 'spy-unreadable':
+                chk.finding('harness:spy', obj, 'the register spy could not read how gcc passes ' + txt, no_input=True)
+            elif not real:
+                chk.finding('tie:' + v, obj, {'model-c2m': 'c2m agrees with gcc but no longer with its Coq classification model on: ',
+                                             'model-sysv': 'gcc no longer agrees with the SysV classification model on: ',
+                                             'models-differ': 'the c2mir and SysV classification models differ on: '}[v] + txt, no_input=True)
+    return bad
+
+
+# a padding-only eightbyte (possible only through a trailing zero-width bit-field in a nested struct):
+# gcc gives it NO_CLASS (no register), c2m an INTEGER register.  classify_eq_sysv_refuted's witness.
+PADDING_WITNESS = 's{ n buchar ; o s{ n bfloat ; g0 bulong } }'
+
+
+def padding_witness(chk, tools):
+    t = G.parse_text(PADDING_WITNESS)
+    r = tools.classify([t])[0]
+    chk.count('K ' + PADDING_WITNESS)
+    if r['gcc_arg'] and r['c2m_args'][0] and blk_letters(r['c2m_args'][0]) != r['gcc_arg'].upper():
+        chk.finding('classify:padding-eightbyte', dict(kind='classify', decl=PADDING_WITNESS, **r),
+                    'an eightbyte of padding only gets an INTEGER register from c2m and none from gcc: ' + PADDING_WITNESS)
+
+
 def run(chk):
     quick = chk.tier == 'quick'
     r = chk.prove()
@@ -184,10 +353,21 @@ def run(chk):
                     chk.sample(G.ty_text(t)[:300])
             for k, v in layout_part(chk, tools, decls, 'layout batch %d' % b).items():
                 bad.setdefault(k, []).extend(v)
+        padding_witness(chk, tools)
+        kb, kper = (2, 250) if quick else (20, 500)
+        for b in range(kb):
+            ds = gen_small(chk, kper, 'classify%d' % b)
+            if b == 0:
+                for t in ds[:3]:
+                    chk.sample('K ' + G.ty_text(t)[:300])
+            classify_part(chk, tools, ds, 'classify batch %d' % b)
         chk.cov['rule'] = ('each generated declaration is compiled into one probe TU run by c2m (-ei) and by gcc; sizeof, '
                            '_Alignof, every named member offset/size and every bit-field position (found by storing all-ones '
                            'into a zeroed object) are compared with the extracted Coq models (c2mir model vs c2m, SysV model vs gcc) '
-                           'and with each other; non-trivial = at least 4 AST nodes; distinct by declaration text')
+                           'and with each other; non-trivial = at least 4 AST nodes; distinct by declaration text.  Classification: '
+                           'how gcc passes/returns each small aggregate is read from the registers by an assembly spy (harness/c08_spy.S), '
+                           'how c2m does from the MIR signatures of c2m -S (with 7 different register-exhaustion prefixes), both compared '
+                           'with the extracted c2mir and SysV classification models')
         if not r['ok'] and not chk.violations:
             chk.proof_broken(r, searched='all generated declarations agreed between c2m, gcc and the models')
     finally:
@@ -207,6 +387,15 @@ def replay(chk, path):
             for k in ('c2m', 'gcc', 'mc', 'ms', 'bss'):
                 print('%-5s: %s' % (k, r[k]))
             v = verdict(r)
+            print('verdict:', v)
+            return 0 if v == 'ok' else 1
+        if rp.get('kind') == 'classify':
+            t = G.parse_text(rp['decl'])
+            r = tools.classify([t])[0]
+            print('decl :', rp['decl'])
+            for k in sorted(r):
+                print('%-8s: %s' % (k, r[k]))
+            v = kverdict(t, r)
             print('verdict:', v)
             return 0 if v == 'ok' else 1
         print('nothing to replay in', path)
